@@ -125,10 +125,17 @@ def generate(tier, out_rs, out_meta):
         # An If-Range that does not match turns a multi-range request into a complete 200: body.)
         # (single-range 206: no split, the body is checked before the first poll only)
         split = c0["method"] == "GET" and (c0["group"] == "full" or (c0["group"] == "multi" and c0["ir"] == "other"))
-        for focus, suffix in ([(1, "_hd"), (2, "_bd")] if split else [(0, "")]):
+        # a single-range GET whose If-Range does not match is answered by the complete 200: split too
+        honoured = c0["ir"] == "absent" or (c0["ir"] == "same" and c0["etag"] in ("strong", "comma"))
+        if c0["method"] == "GET" and c0["group"] == "single" and not honoured:
+            split = True
+        parts = [(1, "_hd"), (2, "_bd")] if split else [(0, "")]
+        for focus, suffix in parts:
             variants = [("", [255] * 6, None)]
-            # (constant numbers for multi-range instances -- num_variants() -- were tried and did not
-            # make them cheaper: the cost is not in the multipart-or-complete decision)
+            if c0["group"] == "multi" and not split and tier == "quick":
+                # quick-tier twins with constant numbers (the multipart-or-complete decision is then
+                # a constant branch); the all-symbolic instance keeps its name
+                variants = variants + num_variants(c0, tier)
             for vs, kinds, nums in variants:
                 name = base + suffix + vs
                 c = dict(c0, focus=focus, script=kinds, nums=nums)
